@@ -82,10 +82,15 @@ Steps == <<
   [n |-> "size", a |-> <<>>], [n |-> "plus", a |-> <<Lit(IntV(1))>>], [n |-> "plus", a |-> <<Var(NN)>>],
   [n |-> "times", a |-> <<Lit(IntV(2))>>], [n |-> "split", a |-> <<Lit(S(<<44>>))>>], [n |-> "first", a |-> <<>>],
   [n |-> "join", a |-> <<Lit(S(<<45>>))>>], [n |-> "default", a |-> <<Lit(S(<<100>>))>>], [n |-> "strip", a |-> <<>>],
-  [n |-> "prepend", a |-> <<P(Var(<<109>>), Bb)>>]
+  [n |-> "prepend", a |-> <<P(Var(<<109>>), Bb)>>],
+  \* an argument that is itself a pipeline (in parentheses), and one used as a subscript
+  [n |-> "append", a |-> <<Fl(Fl(Var(Y), "upcase", <<>>), "append", <<Lit(S(<<43>>))>>)>>],
+  [n |-> "prepend", a |-> <<Ix(Var(<<108>>), Fl(Var(NN), "minus", <<Lit(IntV(9))>>))>>],
+  [n |-> "replace", a |-> <<Lit(S(<<97>>)), Fl(Var(Y), "size", <<>>)>>]
 >>
 RecvU == << S(<<97, 44, 98>>), IntV(3), Nil, S(<<32, 120, 32>>), S(<<52>>) >>
-PipeEnv(r) == << <<A, RecvU[r]>>, <<Y, S(<<121, 89>>)>>, <<NN, IntV(10)>>, <<<<109>>, MapV(<< <<Bb, S(<<62>>)>> >>)>> >>
+PipeEnv(r) == << <<A, RecvU[r]>>, <<Y, S(<<121, 89>>)>>, <<NN, IntV(10)>>, <<<<109>>, MapV(<< <<Bb, S(<<62>>)>> >>)>>,
+                 <<<<108>>, Arr(<<S(<<112>>), S(<<113>>), S(<<114>>)>>)>> >>
 RECURSIVE Chain(_, _)
 Chain(e, ss) == IF ss = <<>> THEN e ELSE Chain(Fl(e, Steps[Head(ss)].n, Steps[Head(ss)].a), Tail(ss))
 Tn(k) == <<116, 48 + k>>
